@@ -15,7 +15,7 @@ Definition exC' : cut := {|
   c_atoms := [(0, part_atom "A"); (1, part_atom "B"); (2, part_atom "D")];
   c_bonds := [ {| cb_u := 0; cb_v := 1; cb_ord := VInt 2; cb_lab := S "x"; cb_dollar := false |};
                {| cb_u := 1; cb_v := 2; cb_ord := VInt 1; cb_lab := []; cb_dollar := true |} ];
-  c_parts := [(S "G1", [2; 1]); (S "G0", [0])] |}.
+  c_parts := [(S "G1", [2; 1]); (S "G0", [0])]; c_dord := [] |}.
 
 Example exC'_coarse : coarse_of exC exC'.
 Proof.
